@@ -307,6 +307,20 @@ class Check:
             return None, p.stdout + p.stderr
         return out, p.stdout + p.stderr
 
+    def build_all(self):
+        """Build every harness the check module declares in BUILDS = {name: (module, pkg, overlay_dirs[, kwargs])}.
+        Returns {name: path} or None (and records the broken correspondence) if any build fails."""
+        bins = {}
+        for name, b in getattr(self.mod, "BUILDS", {}).items():
+            kw = dict(b[3]) if len(b) > 3 else {}
+            kw.setdefault("name", "h_" + name)
+            out, log = self.go_build(b[0], b[1], b[2], **kw)
+            if out is None:
+                self.broke("correspondence harness build %s (%s %s, overlay %s)" % (name, b[0], b[1], b[2]), log)
+                return None
+            bins[name] = out
+        return bins
+
     def run_bin(self, binary, args=(), stdin_path=None, stdin_text=None, env=None, timeout=600, mem_gb=None):
         e = go_env()
         if env:
